@@ -196,7 +196,6 @@ pub fn generate(seed: u64, thorough: bool) -> Vec<String> {
 // ---------------------------------------------------------------------------------------------
 // exploration of the request handlers
 
-#[allow(dead_code)]
 pub const REQUESTS: [&str; 7] =
     ["hover", "definition", "symbols", "prepare-rename", "rename", "formatting", "code-action"];
 
@@ -212,7 +211,10 @@ fn shifted(p: Position, dl: u32, dc: u32) -> Position {
     Position { line: p.line.saturating_add(dl), character: p.character.saturating_add(dc) }
 }
 
-fn diagnostics_at(p: Position) -> Vec<Diagnostic> {
+/// Four diagnostics per request: both diagnostic codes the server reacts to, each with two of the
+/// four range shapes (forward, to the next line start, reversed, empty); `flip` (position parity in
+/// the exploration) exchanges which code gets which shapes, so neighbouring positions cover all eight.
+fn diagnostics_at(p: Position, flip: bool) -> Vec<Diagnostic> {
     let mut v = vec![];
     let ranges = [
         Range { start: p, end: shifted(p, 0, 3) },
@@ -220,8 +222,12 @@ fn diagnostics_at(p: Position) -> Vec<Diagnostic> {
         Range { start: shifted(p, 0, 3), end: p }, // reversed
         Range { start: p, end: p },                // empty
     ];
-    for code in ["parol::parser::invalid_token_in_transition", "parol::parser::token_not_in_scanner"] {
+    let codes = ["parol::parser::invalid_token_in_transition", "parol::parser::token_not_in_scanner"];
+    for (ci, code) in codes.iter().enumerate() {
         for (i, r) in ranges.iter().enumerate() {
+            if ((i / 2 == ci) ^ flip) == false {
+                continue;
+            }
             v.push(Diagnostic {
                 range: *r,
                 code: Some(NumberOrString::String(code.to_string())),
@@ -302,7 +308,11 @@ fn one_request(s: &mut LsSession, req: &str, p: Position) -> Option<()> {
             let params = CodeActionParams {
                 text_document: tdi(s),
                 range: Range { start: p, end: shifted(p, 0, 1) },
-                context: CodeActionContext { diagnostics: diagnostics_at(p), only: None, trigger_kind: None },
+                context: CodeActionContext {
+                    diagnostics: diagnostics_at(p, (p.line ^ p.character) & 1 == 1),
+                    only: None,
+                    trigger_kind: None,
+                },
                 work_done_progress_params: wd(),
                 partial_result_params: pr(),
             };
@@ -471,7 +481,8 @@ fn last_panic_at() -> String {
 struct Tally {
     requests: u64,
     panics: u64,
-    by_request: BTreeMap<String, (u64, u64)>,
+    /// request kind → (requests, panics, microseconds)
+    by_request: BTreeMap<String, (u64, u64, u64)>,
 }
 
 /// Explores one text; prints its `text` line and `panic` lines.
@@ -489,11 +500,13 @@ fn explore_text(
     let mut panics: Vec<(String, Position, String)> = vec![];
     let name = &name.replace(char::is_whitespace, "_");
     let mut s = LsSession::new(1);
+    let t0 = std::time::Instant::now();
     let opened = catch_unwind(AssertUnwindSafe(|| s.open(text)));
     requests += 1;
     {
         let e = tally.by_request.entry("open".to_string()).or_default();
         e.0 += 1;
+        e.2 += t0.elapsed().as_micros() as u64;
         if opened.is_err() {
             e.1 += 1;
         }
@@ -520,9 +533,11 @@ fn explore_text(
     } else {
         let mut record = |req: &str, p: Position, s: &mut LsSession, requests: &mut u64| {
             *requests += 1;
+            let t0 = std::time::Instant::now();
             let r = catch_unwind(AssertUnwindSafe(|| one_request(s, req, p)));
             let e = tally.by_request.entry(req.to_string()).or_default();
             e.0 += 1;
+            e.2 += t0.elapsed().as_micros() as u64;
             if r.is_err() {
                 e.1 += 1;
                 panics.push((req.to_string(), p, last_panic_at()));
@@ -561,7 +576,10 @@ fn explore_text(
     tally.panics += panics.len() as u64;
 }
 
-/// `explore <seed> <quick|thorough>`: prints `text …`, `panic …` and one `summary …` line.
+/// `explore <seed> <quick|thorough>`: prints `text …`, `panic …`, `probe …` and one `summary …` line.
+/// The stdout lock is held for the whole run, so nothing that the server's background analysis
+/// threads print (parol reports LALR conflicts with `println!`) can land inside these lines; such
+/// output appears after the summary, and readers select lines by their first word.
 pub fn explore(seed: u64, thorough: bool) {
     install_panic_hook();
     let stdout = std::io::stdout();
@@ -575,7 +593,7 @@ pub fn explore(seed: u64, thorough: bool) {
         base.extend(par_files("crates/parol-ls/data/input"));
     }
     let (base_positions, mutants, mutant_positions) =
-        if thorough { (usize::MAX, 24, 500) } else { (250, 3, 100) };
+        if thorough { (usize::MAX, 20, 60) } else { (250, 3, 100) };
     let mut tally = Tally { requests: 0, panics: 0, by_request: BTreeMap::new() };
     let mut idx = 0;
     for (name, text) in &base {
@@ -588,8 +606,21 @@ pub fn explore(seed: u64, thorough: bool) {
             idx += 1;
         }
     }
+    // Outside the property's quantifier (it ranges over texts and positions of an OPEN document),
+    // reported as a note only: requests that name a document the server has never seen.
+    {
+        let mut s = LsSession::new(1);
+        let _ = catch_unwind(AssertUnwindSafe(|| s.open("%start S\n%%\nS: \"a\";\n")));
+        s.uri = std::str::FromStr::from_str("file:///verif/never-opened.par").unwrap();
+        let mut res = vec![];
+        for req in REQUESTS {
+            let r = catch_unwind(AssertUnwindSafe(|| one_request(&mut s, req, Position { line: 0, character: 0 })));
+            res.push(format!("{req}={}", if r.is_ok() { "ok".to_string() } else { format!("panic@{}", last_panic_at()) }));
+        }
+        writeln!(out, "probe unopened-uri {}", res.join(" ")).unwrap();
+    }
     let by: Vec<String> =
-        tally.by_request.iter().map(|(k, (n, p))| format!("{k}:{n}:{p}")).collect();
+        tally.by_request.iter().map(|(k, (n, p, us))| format!("{k}:{n}:{p}:{}", us / 1000)).collect();
     writeln!(
         out,
         "summary texts={idx} base={} requests={} panics={} by_request={}",
